@@ -99,6 +99,7 @@ type lattice3 struct {
 	xs, ys, zs []float64
 	stride     int // index steps between the corners of one finest cell (1 uniform, 2 octree)
 	nodes      int
+	complete   bool // every corner node of the lattice was sampled by the surface-free learning render
 }
 
 func uniqSorted(v []float64) []float64 {
@@ -133,6 +134,7 @@ func learnLattice3(r render.Render3, bb sdf.Box3) (*lattice3, error) {
 	}
 	if len(set) == nx*ny*nz {
 		l.stride = 1
+		l.complete = true
 		return l, nil
 	}
 	// octree-like: samples are cell corners (all indices even) and cell centres (all odd)
@@ -151,11 +153,16 @@ func learnLattice3(r render.Render3, bb sdf.Box3) (*lattice3, error) {
 			other++
 		}
 	}
-	if other == 0 && nx%2 == 1 && ny%2 == 1 && nz%2 == 1 && even == ((nx+1)/2)*((ny+1)/2)*((nz+1)/2) {
+	if other == 0 && odd > 0 && nx%2 == 1 && ny%2 == 1 && nz%2 == 1 {
 		l.stride = 2
+		// a hierarchical renderer that skipped part of a surface-free volume leaves holes in the
+		// corner lattice; that is for the mesh checks to judge, the lattice itself is still usable
+		l.complete = even == ((nx+1)/2)*((ny+1)/2)*((nz+1)/2)
 		return l, nil
 	}
-	return nil, fmt.Errorf("learn: unrecognised lattice structure: %d nodes on a %dx%dx%d grid (even %d odd %d other %d)", len(set), nx, ny, nz, even, odd, other)
+	l.stride = 1
+	l.complete = false
+	return l, nil
 }
 
 func findCoord(xs []float64, x float64) int {
@@ -244,8 +251,9 @@ func (f *lookupField3) Evaluate(p v3.Vec) float64 {
 // 2D lattice
 
 type lattice2 struct {
-	xs, ys []float64
-	stride int
+	xs, ys   []float64
+	stride   int
+	complete bool
 }
 
 func learnLattice2(r render.Render2, bb sdf.Box2) (*lattice2, error) {
@@ -265,24 +273,29 @@ func learnLattice2(r render.Render2, bb sdf.Box2) (*lattice2, error) {
 	}
 	if len(rec.events) == nx*ny {
 		l.stride = 1
+		l.complete = true
 		return l, nil
 	}
-	even, other := 0, 0
+	even, odd, other := 0, 0, 0
 	for p := range rec.events {
 		i, j := findCoord(l.xs, p.X), findCoord(l.ys, p.Y)
 		switch {
 		case i%2 == 0 && j%2 == 0:
 			even++
 		case i%2 == 1 && j%2 == 1:
+			odd++
 		default:
 			other++
 		}
 	}
-	if other == 0 && nx%2 == 1 && ny%2 == 1 && even == ((nx+1)/2)*((ny+1)/2) {
+	if other == 0 && odd > 0 && nx%2 == 1 && ny%2 == 1 {
 		l.stride = 2
+		l.complete = even == ((nx+1)/2)*((ny+1)/2)
 		return l, nil
 	}
-	return nil, fmt.Errorf("learn2: unrecognised lattice structure: %d nodes on %dx%d", len(rec.events), nx, ny)
+	l.stride = 1
+	l.complete = false
+	return l, nil
 }
 
 func (l *lattice2) cells() (int, int) { return (len(l.xs) - 1) / l.stride, (len(l.ys) - 1) / l.stride }
